@@ -361,7 +361,7 @@ def c17(prop, tier, seed, env, say, verif, repo, target, bin, **kw):
         kinds["%s:%s" % (l["set"], l["macro"])] = kinds.get("%s:%s" % (l["set"], l["macro"]), 0) + 1
     samples = [{"macro": l["macro"], "set": l["set"], "literal_source": l["spelling"], "text": l["text"]} for l in (valid[:3] + invalid[:3] + valid[-2:] + invalid[-2:])]
     res["info"] = {"valid_literals": len(valid), "invalid_literals": len(invalid), "constants_checked_at_run_time": len(checked), "compile_errors_observed_on_invalid_lines": len([l for l in by_line if l in errs]), "wall_s": round(time.time() - t0, 1)}
-    mandatory = ["valid:uri", "valid:uri_ref", "valid:iri", "valid:iri_ref", "invalid:uri", "invalid:uri_ref", "invalid:iri", "invalid:iri_ref", "spelling:raw", "spelling:unicode-escapes", "spelling:hex-escapes", "spelling:plain", "spelling:line-continuation"]
+    mandatory = ["valid:uri", "valid:uri_ref", "valid:iri", "valid:iri_ref", "invalid:uri", "invalid:uri_ref", "invalid:iri", "invalid:iri_ref", "spelling:raw", "spelling:unicode-escapes", "spelling:hex-escapes", "spelling:plain", "spelling:line-continuation", "spelling:unicode-escape-variants", "spelling:mixed-escapes", "spelling:hex-escapes-upper", "spelling:raw-no-hash", "spelling:raw-two-hashes"]
     res["result"] = {
         "evaluations": n, "distinct_nontrivial": distinct, "rule": exp["rule"], "samples": samples, "strata": kinds, "calls": {"rustc (valid set)": 1, "rustc (invalid set)": 1},
         "extra": res["info"], "sets": {}, "panics_caught": 0, "violation_count": len(viol), "distinct_saturated": False,
